@@ -3,7 +3,9 @@
 A property is claimed iff units/<PID>/ holds at least one unit and meta.json has "claim": true
 (default true); everything else is listed under not_applicable with the reason from
 lib/not_claimed.json."""
-import glob, json, os, subprocess
+import glob, json, os, subprocess, sys
+sys.path.insert(0, os.path.dirname(os.path.abspath(__file__)))
+import driver
 
 VERIF = os.path.dirname(os.path.dirname(os.path.abspath(__file__)))
 props = [json.loads(l) for l in open(os.path.join(VERIF, "properties.jsonl"))]
@@ -12,7 +14,7 @@ not_claimed = json.load(open(os.path.join(VERIF, "lib", "not_claimed.json")))
 checks, na = [], []
 for p in props:
     pid = p["id"]
-    units = glob.glob(os.path.join(VERIF, "units", pid, "*.c"))
+    units = driver.discover(pid)
     mp = os.path.join(VERIF, "units", pid, "meta.json")
     meta = json.load(open(mp)) if os.path.exists(mp) else {}
     if not units or not meta.get("claim", False):
